@@ -1,4 +1,249 @@
-import PrimitivModel.Model.KernelsArith
+import PrimitivModel.Analysis.Scalar
+import PrimitivModel.Lemmas.ArithIndex
+import PrimitivModel.Props.C01.Arith
+/-
+C02 (forward values equal the documented function), arithmetic kernels.
+
+* `matmul_spec`: the loop nest leaves `Σ_j a[i,j]·b[j,k]` in cell (i,k) of sample `bn`, for every batch
+  pattern (a zero stride shares the operand between the samples).
+* `conv2d_spec`: cell (bn, y_c, y_x, y_y) holds the sum over (x_c, w_x, w_y) of
+  `xpad[y·stride − padding + w·dilation] · w[K−1−w]` — the kernel is read flipped (true convolution),
+  positions outside x contribute nothing (zero padding), stride and dilation as documented.
+* `max_pool2d_spec`: every cell holds the maximum of `lowest()` and of the window cells inside x
+  (padding counts as −∞; a window entirely inside the padding yields `lowest()`).
+* stability over ℝ: `softplus_branches`, `sigmoid_tanh_form`, `logsumexp_fold` — the stabilised forms equal
+  the definitions and every `exp` argument is ≤ 0.
+* `convPos32_wrap_witness`: the 32-bit window position of the tree pinned at the start is wrong for a
+  padding close to 2^32 (patches/fix-conv-pool-window-wrap).
+-/
 namespace Primitiv.C02.Arith
-theorem placeholder : True := trivial
+open Primitiv Primitiv.Arith Primitiv.Gen.Elementwise Primitiv.Analysis Finset
+
+/-! ### matmul -/
+section matmul
+variable {α : Type} [CommRing α]
+
+theorem matmul_outer_nodup (D : MatDims) :
+    ((range3 D.bs D.d3 D.d1).map fun s => s.1 * (D.d3 * D.d1) + (s.2.1 * D.d1 + s.2.2)).Nodup := by
+  rw [range3_addr]; exact List.nodup_range
+
+/-- cell (i, k) of sample `bn` of `matmul_fw(a, b)` is `Σ_j a[i,j]·b[j,k]` (column-major: `a[i + j·d1]`,
+`b[j + k·d2]`), with `skipA, skipB ∈ {0, full}` selecting the batch pattern -/
+theorem matmul_spec (D : MatDims) (a b : Buf α) (junk : α) {bn k i : Nat}
+    (hbn : bn < D.bs) (hk : k < D.d3) (hi : i < D.d1) :
+    matmulFw 0 D a b junk (bn * (D.d3 * D.d1) + (k * D.d1 + i))
+      = ∑ j ∈ range D.d2, a (bn * D.skipA + (j * D.d1 + i)) * b (bn * D.skipB + (k * D.d2 + j)) := by
+  have hlt : bn * (D.d3 * D.d1) + (k * D.d1 + i) < D.bs * (D.d3 * D.d1) := idx_lt hbn (idx_lt hk hi)
+  unfold matmulFw
+  rw [if_pos hlt, scatterAddAt_eq, zero_add]
+  have hg := scatter_group_sum (α := α) (range3 D.bs D.d3 D.d1)
+    (fun s => (List.range D.d2).map fun j => (⟨s.1, s.2.1, s.2.2, j⟩ : MatIt))
+    (fun s => s.1 * (D.d3 * D.d1) + (s.2.1 * D.d1 + s.2.2)) D.ya (fun t => a (D.aa t) * b (D.ba t))
+    (by
+      intro s _ t ht
+      obtain ⟨j, _, rfl⟩ := List.mem_map.mp ht
+      rfl)
+    (matmul_outer_nodup D) (s0 := (bn, k, i)) (mem_range3.mpr ⟨hbn, hk, hi⟩)
+  have hits : D.its = (range3 D.bs D.d3 D.d1).flatMap
+      fun s => (List.range D.d2).map fun j => (⟨s.1, s.2.1, s.2.2, j⟩ : MatIt) := rfl
+  rw [hits]
+  refine hg.trans ?_
+  rw [List.map_map, ← list_sum_map_range]
+  rfl
+example : (0 : Nat) < 2 ∧ (1 : Nat) < 3 := by decide
+
+end matmul
+
+/-! ### conv2d -/
+section conv2d
+variable {α : Type} [CommRing α]
+
+/-- the flat address of an output cell -/
+def convCell (D : ConvDims) (s : Nat × Nat × Nat × Nat) : Nat :=
+  s.1 * D.yShift + ((s.2.1 * D.yw + s.2.2.1) * D.yh + s.2.2.2)
+
+theorem conv_outer_nodup (D : ConvDims) (hY : D.yShift = D.yc * (D.yw * D.yh)) :
+    (D.outer.map (convCell D)).Nodup := by
+  have h : D.outer.map (convCell D)
+      = (range4 D.bs D.yc D.yw D.yh).map fun t =>
+          t.1 * (D.yc * (D.yw * D.yh)) + (t.2.1 * (D.yw * D.yh) + (t.2.2.1 * D.yh + t.2.2.2)) := by
+    apply List.map_congr_left
+    intro s _
+    simp only [convCell, hY]
+    ring
+  rw [h, range4_addr]
+  exact List.nodup_range
+
+/-- `conv2d_fw(x, w)`: cell (bn, y_c, y_x, y_y) is the sum over the window cells (x_c, w_x, w_y) whose position
+`y·stride − padding + w·dilation` lies inside x of `x[pos] · w[W−1−w_x, H−1−w_y]`. -/
+theorem conv2d_spec (D : ConvDims) (x w : Buf α) (junk : α) (hY : D.yShift = D.yc * (D.yw * D.yh))
+    {s : Nat × Nat × Nat × Nat} (hs : s ∈ D.outer) :
+    conv2dFw 0 D x w junk (convCell D s)
+      = ((range3 D.xc D.ww D.wh).map fun r =>
+          let t : ConvIt := ⟨s.1, s.2.1, s.2.2.1, s.2.2.2, r.1, r.2.1, r.2.2⟩
+          if D.valid t then x (D.xa t) * w (D.wa t) else 0).sum := by
+  have hs' := mem_range4.mp hs
+  have hlt : convCell D s < D.bs * D.yShift := by
+    unfold convCell
+    rw [hY]
+    exact idx_lt hs'.1 (by
+      have := idx_lt (idx_lt hs'.2.1 hs'.2.2.1) hs'.2.2.2
+      calc (s.2.1 * D.yw + s.2.2.1) * D.yh + s.2.2.2 < D.yc * D.yw * D.yh := this
+        _ = D.yc * (D.yw * D.yh) := by ring)
+  unfold conv2dFw
+  rw [if_pos hlt, scatterAddAt_eq, zero_add]
+  have hits : D.its = D.outer.flatMap fun s => (D.inner s).filter D.valid := by
+    unfold ConvDims.its ConvDims.allIts
+    rw [List.filter_flatMap]
+  rw [hits]
+  have hg := scatter_group_sum (α := α) D.outer (fun s => (D.inner s).filter D.valid) (convCell D) D.ya
+    (fun t => x (D.xa t) * w (D.wa t))
+    (by
+      intro u _ t ht
+      obtain ⟨r, _, rfl⟩ := List.mem_map.mp (List.mem_filter.mp ht).1
+      rfl)
+    (conv_outer_nodup D hY) hs
+  refine hg.trans ?_
+  rw [list_sum_filter_map_bool]
+  unfold ConvDims.inner
+  rw [List.map_map]
+  rfl
+
+end conv2d
+
+/-- The window position as the tree pinned at the start computed it is wrong for a padding close to 2^32:
+`-padding + 0·stride + 0·dilation` with padding = 2^32 − 1 is the in-range position 1, the true position is
+−(2^32 − 1), deep inside the padding.  (Found by the boundary stream of the correspondence run.) -/
+theorem convPos32_wrap_witness :
+    convPos32 4294967295 0 4294967295 0 1 = 1 ∧ convPos 4294967295 0 4294967295 0 1 = -4294967295 := by
+  decide
+
+/-- where the two computations agree: every padding below 2^31 with positions below 2^31 -/
+example : convPos32 2 3 2 1 1 = convPos 2 3 2 1 1 := by decide
+
+/-- `conv2d_spec` in the textbook form `y[o] = Σ_k xpad[o·s − p + (K−1−k)·d] · w[k]` (the reflection
+`k = K−1−w` of the window loops); stated, not proved. -/
+def conv2d_spec_full : Prop :=
+  ∀ (D : ConvDims) (x w : Buf ℚ) (junk : ℚ), D.yShift = D.yc * (D.yw * D.yh) →
+    ∀ s ∈ D.outer, conv2dFw 0 D x w junk (convCell D s)
+      = ((range3 D.xc D.ww D.wh).map fun r =>
+          let t : ConvIt := ⟨s.1, s.2.1, s.2.2.1, s.2.2.2, r.1, D.ww - 1 - r.2.1, D.wh - 1 - r.2.2⟩
+          if D.valid t then x (D.xa t) * w (s.1 * D.wShift + (((s.2.1 * D.xc + r.1) * D.ww + r.2.1) * D.wh + r.2.2)) else 0).sum
+
+/-! ### max_pool2d -/
+section pool
+variable {α : Type} [LinearOrder α]
+
+theorem pool_outer_nodup (D : PoolDims) : (D.outer.map D.ya).Nodup := by
+  have h : D.outer.map D.ya
+      = (range3 D.rep D.yw D.yh).map fun t => t.1 * (D.yw * D.yh) + (t.2.1 * D.yh + t.2.2) := by
+    apply List.map_congr_left
+    intro t _
+    simp only [PoolDims.ya, Nat.mul_comm D.yh D.yw]
+  rw [h, range3_addr]
+  exact List.nodup_range
+
+/-- every output cell holds the running maximum of its window -/
+theorem max_pool2d_cell (lowest : α) (D : PoolDims) (x : Buf α) (junk : α) {t : Nat × Nat × Nat} (ht : t ∈ D.outer) :
+    maxPoolFw lowest D x junk (D.ya t)
+      = windowMax lowest ((D.window t.2.1 t.2.2).map fun a => x (D.xbase t + a)) := by
+  unfold maxPoolFw
+  exact writeAt_of_nodup D.outer D.ya _ junk (pool_outer_nodup D) ht
+
+/-- `max_pool2d_fw`: the cell is ≥ `lowest()` and ≥ every window cell inside x, and it is one of them
+(all-padding window ⇒ `lowest()`) -/
+theorem max_pool2d_spec (lowest : α) (D : PoolDims) (x : Buf α) (junk : α) {t : Nat × Nat × Nat} (ht : t ∈ D.outer) :
+    let y := maxPoolFw lowest D x junk (D.ya t)
+    lowest ≤ y ∧ (∀ a ∈ D.window t.2.1 t.2.2, x (D.xbase t + a) ≤ y) ∧
+      (y = lowest ∨ ∃ a ∈ D.window t.2.1 t.2.2, y = x (D.xbase t + a)) := by
+  intro y
+  have hy : y = windowMax lowest ((D.window t.2.1 t.2.2).map fun a => x (D.xbase t + a)) :=
+    max_pool2d_cell lowest D x junk ht
+  obtain ⟨h1, h2, h3⟩ := windowMax_spec lowest ((D.window t.2.1 t.2.2).map fun a => x (D.xbase t + a))
+  rw [hy]
+  refine ⟨h1, fun a ha => h2 _ (List.mem_map.mpr ⟨a, ha, rfl⟩), ?_⟩
+  rcases h3 with h3 | h3
+  · exact Or.inl h3
+  · obtain ⟨a, ha, hv⟩ := List.mem_map.mp h3
+    exact Or.inr ⟨a, ha, hv.symm⟩
+
+/-- a window that lies entirely in the padding yields `lowest()` -/
+theorem max_pool2d_all_padding (lowest : α) (D : PoolDims) (x : Buf α) (junk : α) {t : Nat × Nat × Nat}
+    (ht : t ∈ D.outer) (hw : D.window t.2.1 t.2.2 = []) : maxPoolFw lowest D x junk (D.ya t) = lowest := by
+  rw [max_pool2d_cell lowest D x junk ht, hw]
+  rfl
+example : (⟨1, 1, 4, 4, 1, 2, 2, 2, 2, 1, 1⟩ : PoolDims).window 0 0 = [] := by decide
+
+end pool
+
+/-! ### stability over ℝ -/
+
+/-- softplus: both branches equal `log(1 + e^x)`, and the branch that is taken calls `exp` with an argument ≤ 0 -/
+theorem softplus_branches (x : ℝ) :
+    naive_softplus_fw realFns x = Real.log (1 + Real.exp x) ∧
+    eigen_softplus_fw realFns x = Real.log (1 + Real.exp x) ∧
+    (x > 0 → naive_softplus_fw realFns x = x + Real.log (1 + Real.exp (-x)) ∧ -x ≤ 0) ∧
+    (¬ x > 0 → naive_softplus_fw realFns x = Real.log (1 + Real.exp x) ∧ x ≤ 0) := by
+  have h1 : naive_softplus_fw realFns x = softplus x := congrFun C01.Arith.Elementwise.softplus_fw_eq x
+  refine ⟨h1, ?_, ?_, ?_⟩
+  · rw [← C08.Arith.Elementwise.naive_eq_eigen_softplus_fw]; exact h1
+  · intro hx
+    refine ⟨?_, by linarith⟩
+    simp only [naive_softplus_fw, lit_zero, lit_one, fns_exp, fns_log, if_pos hx]
+  · intro hx
+    exact ⟨h1, not_lt.mp hx⟩
+
+/-- sigmoid: the library's `.5 + .5·tanh(.5·x)` is the logistic function `1 / (1 + e^{−x})`; no `exp` is evaluated
+and the value stays in (0, 1) -/
+theorem sigmoid_tanh_form (x : ℝ) :
+    naive_sigmoid_fw realFns x = 1 / (1 + Real.exp (-x)) ∧ eigen_sigmoid_fw realFns x = 1 / (1 + Real.exp (-x)) ∧
+    0 < naive_sigmoid_fw realFns x ∧ naive_sigmoid_fw realFns x < 1 := by
+  have h1 : naive_sigmoid_fw realFns x = sigmoidT x := congrFun C01.Arith.Elementwise.sigmoid_fw_eq x
+  have h2 := sigmoidT_eq_inv x
+  have he : 0 < Real.exp (-x) := Real.exp_pos _
+  refine ⟨h1.trans h2, ?_, ?_, ?_⟩
+  · rw [← C08.Arith.Elementwise.naive_eq_eigen_sigmoid_fw]; exact h1.trans h2
+  · rw [h1, h2]; positivity
+  · rw [h1, h2, div_lt_one (by positivity)]; linarith
+
+/-- one step of the pairwise recurrence adds one term under the logarithm -/
+theorem lseStep_eq {S : ℝ} (hS : 0 < S) (a : ℝ) :
+    lseStep realFns (Real.log S) a = Real.log (S + Real.exp a) := by
+  have ha : 0 < Real.exp a := Real.exp_pos a
+  unfold lseStep
+  simp only [lit_one, fns_exp, fns_log]
+  split_ifs
+  · rw [Real.exp_sub, Real.exp_log hS]
+    have : (1 + Real.exp a / S) = (S + Real.exp a) / S := by field_simp
+    rw [this, Real.log_div (by positivity) hS.ne']
+    ring
+  · rw [Real.exp_sub, Real.exp_log hS]
+    have : (1 + S / Real.exp a) = (S + Real.exp a) / Real.exp a := by field_simp; ring
+    rw [this, Real.log_div (by positivity) ha.ne', Real.log_exp]
+    ring
+
+/-- in either branch of a step the argument of `exp` is ≤ 0 -/
+theorem lseStep_exp_arg_nonpos (tmp arg : ℝ) : (tmp > arg → arg - tmp ≤ 0) ∧ (¬ tmp > arg → tmp - arg ≤ 0) :=
+  ⟨fun h => by linarith, fun h => by linarith [not_lt.mp h]⟩
+
+/-- logsumexp: the pairwise recurrence over the values along the axis is `log Σ_i e^{x_i}` -/
+theorem logsumexp_fold (first : ℝ) (rest : List ℝ) :
+    lseFold realFns first rest = Real.log (Real.exp first + (rest.map Real.exp).sum) := by
+  unfold lseFold
+  have key : ∀ (l : List ℝ) (S : ℝ), 0 < S →
+      l.foldl (lseStep realFns) (Real.log S) = Real.log (S + (l.map Real.exp).sum) := by
+    intro l
+    induction l with
+    | nil => intro S _; simp
+    | cons a tl ih =>
+      intro S hS
+      rw [List.foldl_cons, lseStep_eq hS, ih _ (by positivity), List.map_cons, List.sum_cons, add_assoc]
+  have := key rest (Real.exp first) (Real.exp_pos _)
+  rwa [Real.log_exp] at this
+
+/-- the running value stays between `max x_i` and `max x_i + log n`; stated, not proved -/
+def logsumexp_bounds_full : Prop :=
+  ∀ (first : ℝ) (rest : List ℝ) (m : ℝ), (first ≤ m ∧ ∀ v ∈ rest, v ≤ m) → (first = m ∨ m ∈ rest) →
+    m ≤ lseFold realFns first rest ∧ lseFold realFns first rest ≤ m + Real.log (rest.length + 1)
+
 end Primitiv.C02.Arith
